@@ -141,6 +141,11 @@ func special(run *core.Run) {
 		mk := func() (*fsmkit.Replica, uint64) {
 			r := fsmkit.New(fsmkit.Opts{})
 			idx := uint64(10)
+			// the builtin global-management policy the bootstrap token links to (the leader creates it)
+			gm := &structs.ACLPolicy{ID: structs.ACLPolicyGlobalManagementID, Name: "global-management", Rules: `acl = "write"`}
+			gm.SetHash(true)
+			idx += 2
+			r.Apply(idx, structs.ACLPolicySetRequestType, &structs.ACLPolicyBatchSetRequest{Policies: structs.ACLPolicies{gm}})
 			if ps == 1 {
 				idx += 2
 				r.Apply(idx, structs.ACLBootstrapRequestType, &structs.ACLTokenBootstrapRequest{Token: bootTok(1)})
